@@ -942,7 +942,72 @@ Definition jwe_of_b64 (p k i c t : bytes) : res jwe_fields :=
    (19 iv noncesize)              aeadContentCipher.decrypt guard -> (0) reaches Open | (1 1)
    (21 keykind algname)           NewSigner+Sign glue: keykind 0 []byte, 1 RSA, else EC curve bits
                                                                   -> (0 siglen) | (1 1) | (1 2)
-   (22 keykind algname siglen)    Verify glue                     -> (0) | (1 1) | (1 2)          *)
+   (22 keykind algname siglen)    Verify glue                     -> (0) | (1 1) | (1 2)
+   (23 object hdrtable)           ParseSigned, JSON (abstract object, see obj_of_sx)
+                                  -> (0 payload ((prot sig alg nonce signing_input) ...)) | (1)
+   (24 object hdrtable)           ParseEncrypted, JSON
+                                  -> (0 prot ((key alg enc) ...) iv ct tag aad_input) | (1)      *)
+(* abstract JSON objects in s-expression form (built by the harness with an independent
+   encoding/json parse of the text): object = ((name value) ...), value = xSTRING | (1 header) |
+   (2 (item ...)), header = ((name value) ...), item = ((name leaf) ...), leaf = xSTRING | (1 header);
+   header-decoding oracle table = ((protected_bytes header) ...) | ((protected_bytes)) for a JSON error *)
+Fixpoint hdr_of_sx (l : list sx) : header :=
+  match l with SL [SB k; SB v] :: t => (k, v) :: hdr_of_sx t | _ => [] end.
+Definition leaf_of_sx (v : sx) : option jleaf :=
+  match v with
+  | SB s => Some (LStr s)
+  | SL [SZ 1; SL h] => Some (LHdr (hdr_of_sx h))
+  | _ => None
+  end.
+Fixpoint obj1_of_sx (l : list sx) : jobj1 :=
+  match l with
+  | SL [SB k; v] :: t => match leaf_of_sx v with Some x => (k, x) :: obj1_of_sx t | None => obj1_of_sx t end
+  | _ => []
+  end.
+Fixpoint items_of_sx (l : list sx) : list jobj1 :=
+  match l with SL it :: t => obj1_of_sx it :: items_of_sx t | _ => [] end.
+Definition mem_of_sx (v : sx) : option jmem :=
+  match v with
+  | SB s => Some (MStr s)
+  | SL [SZ 1; SL h] => Some (MHdr (hdr_of_sx h))
+  | SL [SZ 2; SL items] => Some (MArr (items_of_sx items))
+  | _ => None
+  end.
+Fixpoint obj_of_sx (l : list sx) : jobj :=
+  match l with
+  | SL [SB k; v] :: t => match mem_of_sx v with Some x => (k, x) :: obj_of_sx t | None => obj_of_sx t end
+  | _ => []
+  end.
+Fixpoint hdrtab_of_sx (l : list sx) : list (bytes * option header) :=
+  match l with
+  | SL [SB p; SL h] :: t => (p, Some (hdr_of_sx h)) :: hdrtab_of_sx t
+  | SL [SB p] :: t => (p, None) :: hdrtab_of_sx t
+  | _ => []
+  end.
+Fixpoint hdr_dec_tab (tab : list (bytes * option header)) (p : bytes) : option header :=
+  match tab with [] => None | (k, v) :: t => if bytes_eqb k p then v else hdr_dec_tab t p end.
+
+Definition obs_jws_json (r : res (bytes * list psig)) : sx :=
+  match r with
+  | Ok (payload, sigs) =>
+      s_ok [SB payload;
+            SL (map (fun s => SL [SB (ps_prot s); SB (ps_sig s); SB (hget (psig_merged s) n_alg);
+                                  SB (hget (psig_merged s) n_nonce); SB (signing_input (ps_prot s) payload)]) sigs)]
+  | Err _ => SL [SZ 1]
+  | Panic _ => s_panic
+  end.
+
+Definition obs_jwe_json (r : res pjwe) : sx :=
+  match r with
+  | Ok p =>
+      s_ok [SB (pe_prot p);
+            SL (map (fun rc => let m := merged [pe_phdr p; pe_unprot p; rc_hdr rc] in
+                               SL [SB (rc_key rc); SB (hget m n_alg); SB (hget m n_enc)]) (pe_recips p));
+            SB (pe_iv p); SB (pe_ct p); SB (pe_tag p); SB (pjwe_aad p)]
+  | Err _ => SL [SZ 1]
+  | Panic _ => s_panic
+  end.
+
 Definition keykind_of_z (z : Z) : keykind :=
   if Z.eqb z 0 then KSym else if Z.eqb z 1 then KRsa else KEc (z2n z).
 
@@ -988,6 +1053,10 @@ Definition run_c16 (c : sx) : sx :=
       obs_res (let* n := sign_decide (keykind_of_z kk) name in Ok [sN n])
   | SL (SZ 22 :: SZ kk :: SB name :: SZ sl :: _) =>
       obs_res (let* _ := verify_decide (keykind_of_z kk) name (z2n sl) in Ok [])
+  | SL (SZ 23 :: SL o :: SL tab :: _) =>
+      obs_jws_json (parse_jws_full (hdr_dec_tab (hdrtab_of_sx tab)) (obj_of_sx o))
+  | SL (SZ 24 :: SL o :: SL tab :: _) =>
+      obs_jwe_json (parse_jwe_full (hdr_dec_tab (hdrtab_of_sx tab)) (obj_of_sx o))
   | SL (SZ 19 :: SB iv :: SZ ns :: _) =>
       obs_res (let* _ := aead_decrypt (z2n ns) (fun _ _ _ => Ok []) iv [] [] [] in Ok [])
   | _ => bad_case
